@@ -15,7 +15,7 @@ def _known(fid):
 # fixes/C09-5.diff (finding F14).  While F14 is an open (known) finding the module elaborates to nothing (#when) and is not an
 # obligation; the harness exhibits the panic on every run.  Once the finding is marked fixed the theorem is demanded.
 # VERIF_C09_FULL=1 forces it (used to validate the fix on a scratch tree).
-PROPS = ["CTV.Props.C09", "CTV.Props.C09Width8", "CTV.Props.C09Tie"] + ([] if (_known("F14") and not os.environ.get("VERIF_C09_FULL")) else ["CTV.Props.C09TagWidth"])
+PROPS = ["CTV.Props.C09", "CTV.Props.C09Width8", "CTV.Props.C09Tie", "CTV.Model.TlsSpec"] + ([] if (_known("F14") and not os.environ.get("VERIF_C09_FULL")) else ["CTV.Props.C09TagWidth"])
 HARNESS = [dict(pkg="./tls/", test="TestVerifC09", timeout=1500)]
 RULE = ("Go types generated with reflect.StructOf from the tag grammar (depth <= 4, variants anywhere after their selector, bounds at each "
         "1..8-byte boundary, plus a corpus of shapes outside the well-formed grammar) x generated values x (valid encodings, truncations, "
